@@ -268,6 +268,9 @@ class Check:
         self.rule = ""
         self.notes: dict = {}
         self.known, self.fixed = load_known(pid)
+        if REPLAYS.exists():
+            for old in REPLAYS.glob(f"{pid}_{tier}_*.json"):
+                old.unlink()
         self.proof_broken: list[str] = []
         self.print_assumptions: dict[str, str] = {}
 
